@@ -1,6 +1,6 @@
 use vlib::cfg::catalogue;
 use vlib::engine::{par_map, run_format, Case};
-use vlib::oracle::{self, Verdict};
+use vlib::oracle::Verdict;
 
 fn main() {
     let args: Vec<String> = std::env::args().collect();
@@ -68,12 +68,9 @@ fn t0scan(props: &[String]) {
         let (out, _) = run_format(case);
         let mut fails = Vec::new();
         for p in props {
-            let v = match p.as_str() {
-                "C01" => oracle::c01(case, &out),
-                "C02" => oracle::c02(case, &out),
-                "C03" => oracle::c03(case, &out),
-                "C06" => oracle::c06(case, &out),
-                _ => Verdict::Skip("?"),
+            let v = match vlib::props::e1_prop(p) {
+                Some(prop) => (prop.oracle)(case, &out, 0),
+                None => Verdict::Skip("?"),
             };
             if let Verdict::Fail(d) = v {
                 fails.push(format!("{p} {name}|{} :: {d}", case.cfg.label()));
